@@ -330,7 +330,14 @@ func (w *world) readState() (map[string]map[string]*colInfo, string, string) {
 				}
 				dec := json.NewDecoder(bytes.NewReader(r.body))
 				if err := dec.Decode(&sr); err != nil {
-					return nil, "", "digest search: " + err.Error()
+					// a 200 whose JSON this process cannot read (a stored point nested deeper than encoding/json's
+					// 10000 levels, put there through MessagePack): not a failure of the server; the
+					// collection is dropped at the next iteration
+					unreadable = true
+					if w.broken[key] == "" {
+						w.broken[key] = "harness cannot decode: " + err.Error()
+					}
+					break
 				}
 				for _, p := range sr.Points {
 					pid, _ := p["_id"].(string)
@@ -665,6 +672,12 @@ func doReplay(path string) {
 			body = body[:160] + "..."
 		}
 		fmt.Printf("status=%d %s\n", resp.status, strings.TrimSpace(body))
+		if resp.status >= 500 && os.Getenv("C18_SERVER_LOG") != "" {
+			l := c.log.String()
+			if i := strings.LastIndex(l, "panic recovered"); i >= 0 {
+				fmt.Fprintln(os.Stderr, l[max(0, i-200):min(len(l), i+3000)])
+			}
+		}
 	}
 }
 
